@@ -42,7 +42,9 @@ namespace ratio
                         const arith_expr xpr = slv.is_impulse(*atm) ? atm->get(RATIO_AT) : atm->get(RATIO_START);
                         if ((*xpr).l.vars.empty())
                             throw execution_exception(); // we can't delay constants..
-                        const auto lb = slv.arith_value(xpr) + at_atm->second;
+                        auto lb = slv.arith_value(xpr) + at_atm->second;
+                        if (lb <= current_time) // a delayed atom is not dispatched before the next tick..
+                            lb = inf_rational(current_time + units_per_tick);
                         auto [it, added] = adaptations.at(atm).bounds.emplace(&*xpr, nullptr);
                         if (added)
                         { // we have to add new bounds..
@@ -70,7 +72,9 @@ namespace ratio
                         const arith_expr xpr = slv.is_impulse(*atm) ? atm->get(RATIO_AT) : atm->get(RATIO_END);
                         if ((*xpr).l.vars.empty())
                             throw execution_exception(); // we can't delay constants
-                        const auto lb = slv.arith_value(xpr) + at_atm->second;
+                        auto lb = slv.arith_value(xpr) + at_atm->second;
+                        if (lb <= current_time) // a delayed atom is not dispatched before the next tick..
+                            lb = inf_rational(current_time + units_per_tick);
                         auto [it, added] = adaptations.at(atm).bounds.emplace(&*xpr, nullptr);
                         if (added)
                         { // we have to add new bounds..
